@@ -164,7 +164,81 @@ func genInput(seed uint64) snapInput {
 	cx := size + 2 + int64(r.Uint64()%uint64(cells-2*size-4))
 	cy := size + 2 + int64(r.Uint64()%uint64(cells-2*size-4))
 	var rings [][][2]int64
-	switch x := r.Intn(20); {
+	switch x := r.Intn(24); {
+	case x >= 20 && x < 22:
+		// several thin V-shaped holes whose tips meet in one pixel: many rings pass through the
+		// same pixel more than once
+		in.Shape = "chevron-holes"
+		rmin := size/2 + 1
+		rings = append(rings, star(r, cx, cy, rmin, size, 6+r.Intn(20)))
+		k := 3 + r.Intn(4)
+		e := float64(1 + r.Intn(int(pixL/4)+2))
+		th := float64(1 + r.Intn(int(pixL/6)+1))
+		arm := float64(rmin)*0.8 - e - th
+		if arm < 3 {
+			arm = 3
+		}
+		for h := 0; h < k; h++ {
+			theta := (float64(h) + 0.2*r.Float()) * 2 * math.Pi / float64(k)
+			alpha := math.Pi / float64(k) * (0.35 + 0.3*r.Float())
+			pt := func(d, ang, shift float64) [2]int64 {
+				return [2]int64{cx + int64(math.Round((e+shift)*math.Cos(theta)+d*math.Cos(ang))), cy + int64(math.Round((e+shift)*math.Sin(theta)+d*math.Sin(ang)))}
+			}
+			la, lb := arm*(0.5+0.5*r.Float()), arm*(0.5+0.5*r.Float())
+			hole := [][2]int64{pt(la, theta-alpha, 0), pt(0, 0, 0), pt(lb, theta+alpha, 0), pt(lb, theta+alpha, th), pt(0, 0, th), pt(la, theta-alpha, th)}
+			if area2(hole) > 0 {
+				rev(hole) // holes clockwise
+			}
+			rings = append(rings, hole)
+		}
+		in.Valid = true
+	case x >= 22:
+		// a moat: a ring-shaped hole with a narrow bridge to the island inside it, which has
+		// holes of its own; when the bridge closes on the grid the island becomes a polygon
+		// nested in the hole of the outer one
+		in.Shape = "moat"
+		rmin := size/2 + 1
+		rings = append(rings, star(r, cx, cy, rmin, size, 6+r.Intn(20)))
+		r2 := float64(rmin) * (0.6 + 0.25*r.Float())
+		r1 := r2 * (0.4 + 0.3*r.Float())
+		w := float64(1 + r.Intn(int(pixL/2)+1))
+		a0 := 2 * math.Pi * r.Float()
+		n := 8 + r.Intn(10)
+		var moat [][2]int64
+		add := func(rad, ang float64) {
+			p := [2]int64{cx + int64(math.Round(rad*math.Cos(ang))), cy + int64(math.Round(rad*math.Sin(ang)))}
+			if len(moat) == 0 || moat[len(moat)-1] != p {
+				moat = append(moat, p)
+			}
+		}
+		g2, g1 := w/2/r2, w/2/r1
+		for i := 0; i <= n; i++ {
+			add(r2, a0+g2+(2*math.Pi-2*g2)*float64(i)/float64(n))
+		}
+		for i := n; i >= 0; i-- {
+			add(r1, a0+g1+(2*math.Pi-2*g1)*float64(i)/float64(n))
+		}
+		if len(moat) > 3 && moat[0] == moat[len(moat)-1] {
+			moat = moat[:len(moat)-1]
+		}
+		if area2(moat) > 0 {
+			rev(moat)
+		}
+		rings = append(rings, moat)
+		for h, nh := 0, r.Intn(3); h < nh; h++ {
+			ang := (float64(h) + 0.5*r.Float()) * 2 * math.Pi / float64(nh)
+			d, hr := r1*0.45, int64(r1*0.25)
+			if nh == 1 {
+				d, hr = r1*0.2*r.Float(), int64(r1*(0.2+0.4*r.Float()))
+			}
+			if hr < 2 {
+				continue
+			}
+			hole := star(r, cx+int64(d*math.Cos(ang)), cy+int64(d*math.Sin(ang)), hr/2+1, hr, 3+r.Intn(8))
+			rev(hole)
+			rings = append(rings, hole)
+		}
+		in.Valid = true
 	case x < 9:
 		in.Shape = "star"
 		rings = append(rings, star(r, cx, cy, size/3+1, size, 3+r.Intn(30)))
